@@ -11,3 +11,9 @@ CHECKS["C11"] = pool_family.run
 import num_family
 for p in num_family.PROPS:
     CHECKS[p] = num_family.run
+
+import shared_family
+CHECKS["C19"] = shared_family.run
+
+import alloc_family
+CHECKS["C18"] = alloc_family.run
